@@ -82,6 +82,8 @@ static void run_case( const std::vector<Toks>& ops, FILE* out )
                 std::string o;
                 if ( kv( t, "out", o ) )
                     sv.push_back( "out=" + o );
+                if ( kv( t, "file", o ) )
+                    sv.push_back( "file=" + o );
             }
             recipe.push_back( sv );
             char*  mbuf = nullptr;
@@ -316,6 +318,26 @@ static void run_case( const std::vector<Toks>& ops, FILE* out )
             long long  budget = (long long)kvn( t, "budget", (unsigned long long)-1 );
             std::string d;
             bool        r;
+            if ( kvn( t, "file", 0 ) == 1 ) {
+                // file-name overload onto a real file that cannot grow beyond `budget` bytes
+                // (RLIMIT_FSIZE: the write that crosses the limit is cut short and fails with EFBIG)
+                std::string p = "/tmp/vh_savelim_" + std::to_string( getpid() ) + ".bin";
+                signal( SIGXFSZ, SIG_IGN );
+                struct rlimit old_lim, lim;
+                getrlimit( RLIMIT_FSIZE, &old_lim );
+                lim = old_lim;
+                if ( kv( t, "budget", d ) ) {
+                    lim.rlim_cur = (rlim_t)budget;
+                    setrlimit( RLIMIT_FSIZE, &lim );
+                }
+                r = c.elf->save( p );
+                setrlimit( RLIMIT_FSIZE, &old_lim );
+                unlink( p.c_str() );
+                c.saved.clear();
+                fprintf( out, "save=%s bytes=-\n", r ? "true" : "false" );
+                fflush( out );
+                continue;
+            }
             if ( kv( t, "budget", d ) ) {
                 budget_buf   bb( budget );
                 std::ostream os( &bb );
